@@ -880,6 +880,72 @@ pub fn layout(r: &Recipe) -> Program {
     Program { lines }
 }
 
+/// Programs whose DEF statements all come first, each function defined at most once.
+pub fn program_defs_first(cfg: GenCfg) -> BoxedStrategy<Program> {
+    recipe(cfg)
+        .prop_map(|mut r| {
+            fn strip(bs: &mut Vec<Block>) {
+                bs.retain(|b| !matches!(b, Block::Def(..)));
+                for b in bs.iter_mut() {
+                    match b {
+                        Block::For { body, .. } | Block::CountLoop { body, .. } => strip(body),
+                        _ => {}
+                    }
+                }
+            }
+            strip(&mut r.main);
+            for s in r.subs.iter_mut() {
+                strip(s);
+            }
+            // never merge a DEF line with what follows (the body would swallow nothing, but keep DEF lines pure)
+            let n = r.defs.len();
+            for i in 0..n.min(r.pack.len()) {
+                r.pack[i] = false;
+            }
+            if n < r.pack.len() {
+                r.pack[n] = false;
+            }
+            layout(&r)
+        })
+        .boxed()
+}
+
+/// Any single statement, including IF forms, jumps to line 10 itself, FOR / NEXT, DATA, DEF.
+pub fn any_stmt(cfg: GenCfg) -> BoxedStrategy<Stmt> {
+    let thenable = simple_stmt(cfg);
+    weighted(vec![
+        (20, simple_stmt(cfg)),
+        (
+            4,
+            (cond_expr(cfg.allow_rnd, cfg.error_weight), thenable.clone(), prop::option::weighted(0.5, thenable.clone()))
+                .prop_map(|(cond, then, els)| Stmt::If { cond, then: Branch::Stmt(Box::new(then)), els: els.map(|e| Branch::Stmt(Box::new(e))) })
+                .boxed(),
+        ),
+        (1, (cond_expr(false, 0), any::<bool>()).prop_map(|(cond, e)| Stmt::If { cond, then: Branch::Line(10), els: if e { Some(Branch::Line(10)) } else { None } }).boxed()),
+        (1, Just(Stmt::Goto(10)).boxed()),
+        (1, Just(Stmt::Gosub(10)).boxed()),
+        (1, Just(Stmt::Goto(20)).boxed()),
+        (1, Just(Stmt::Return).boxed()),
+        (1, Just(Stmt::End).boxed()),
+        (3, for_header(cfg).prop_map(|(v, from, to, step)| Stmt::For { var: FOR_VARS[v].to_string(), from, to, step }).boxed()),
+        (1, (num_expr(1, false, cfg.error_weight), str_atom()).prop_map(|(from, to)| Stmt::For { var: "C".into(), from, to, step: None }).boxed()),
+        (2, pick(FOR_VARS).prop_map(|v| Stmt::Next(v.to_string())).boxed()),
+        (1, pick(STR_VARS).prop_map(|v| Stmt::Next(v.to_string())).boxed()),
+        (2, prop::collection::vec(data_item(), 1..4).prop_map(Stmt::Data).boxed()),
+        (
+            2,
+            (0..FUNCS.len(), num_expr(2, false, cfg.error_weight), str_atom(), any::<bool>())
+                .prop_map(|(f, nb, sb, swap)| {
+                    let (name, params) = FUNCS[f];
+                    let body = if name.ends_with('$') != swap { sb } else { nb };
+                    Stmt::Def { name: name.to_string(), params: params.iter().map(|p| p.to_string()).collect(), body }
+                })
+                .boxed(),
+        ),
+        (1, "[ -~]{0,10}".prop_map(Stmt::Rem).boxed()),
+    ])
+}
+
 /// Programs without any DEF statement (user-function names then read as arrays).
 pub fn program_without_defs(cfg: GenCfg) -> BoxedStrategy<Program> {
     recipe(cfg)
